@@ -18,7 +18,7 @@ from harness import buildlib as B
 from harness import c01
 from harness.common import Run
 
-CONE = ["Base.v", "IR.v", "Show.v", "Build.v", "Sem.v", "Plan.v", "Named.v", "Validate.v", "BuildFacts.v", "SemFacts.v", "FuncFacts.v", "CompilePres.v", "ScopeFacts.v", "DfsFacts.v", "EmitFacts.v", "FunDefFacts.v"]
+CONE = ["Base.v", "IR.v", "Show.v", "Build.v", "Sem.v", "Plan.v", "Named.v", "Validate.v", "BuildFacts.v", "SemFacts.v", "FuncFacts.v", "CompilePres.v", "ScopeFacts.v", "DfsFacts.v", "EmitFacts.v", "FunDefFacts.v", "IOFacts.v", "AdaptFacts.v", "ReqFacts.v", "CoverFacts.v", "FunCoverFacts.v"]
 PROPS = "props/C14.v"
 F32 = np.float32
 
